@@ -189,6 +189,25 @@ def check(run):
         s2 = ShellSpec(1, [0.4, -0.7, 0.9], [0.8], [[1.0]])
         rewrites(run, rng, [s1, s2], 0, None, ["eri_chemist"])
         run.count("single-primitive shell with several columns (ERI)")
+    # the same for every other function, both derivative back-ends included: one primitive shared by 2 - 4 columns
+    for it in range(3 if quick else 8):
+        l = it % 3
+        s1 = ShellSpec(l, [core.snap(rng.uniform(-0.5, 0.5), 8) for _ in range(3)], [core.rand_exp(rng, 0.4, 3.0)],
+                       [[1.0, -2.0e3, 5.0e-4, 0.7][: 2 + it % 3]], sph=bool(it % 2))
+        s2 = rand_shell(rng, (l + 1) % 2, [], nprim=2, nseg=1, exp_hi=10.0)
+        specs = [s1, s2] if it % 2 == 0 else [s2, s1]
+        rewrites(run, rng, specs, it % 2, pf.default_env(rng, specs), cheap)
+        run.count("single-primitive shell with several columns (all functions)")
+    # coefficient matrices with special structure (permutation of an uncontracted set, two columns sharing one primitive, diagonal,
+    # triangular, several segmented contractions stored as one shell): every rewrite for every cheap function
+    from checks.common import structured_coefficient_shell
+    for it, kind in enumerate(("permutation", "shared-primitive", "block-disjoint", "diagonal", "triangular")):
+        for l in ((it % 2,) if quick else (0, 1, 2)):
+            sh = structured_coefficient_shell(rng, l, kind, sph=bool((it + l) % 2))
+            other = rand_shell(rng, (l + 1) % 2, [], nprim=2, nseg=1, exp_hi=10.0)
+            specs = [sh, other] if it % 2 == 0 else [other, sh]
+            rewrites(run, rng, specs, it % 2, pf.default_env(rng, specs), cheap)
+            run.count("coefficient matrix of %s type" % kind)
     # all-s generalized shells go through the dedicated (ss|ss) routine
     for it in range(1 if quick else 4):
         cs = []
